@@ -36,10 +36,10 @@ CONFIG = {
 THEOREMS = ["C14_admit_iff", "C14_reported_novelty", "C14_lc_count", "C14_append_only", "C14_growth", "C14_replace_iff", "C14_bounds"]
 
 
-def run_case(case, driver):
-    """-> ("ok"|"borderline"|"bad", disagreement, impl result)"""
+def run_case(case, driver, res=None):
+    """-> ("ok"|"borderline"|"bad", disagreement)"""
     try:
-        d = u.compare(case, driver)
+        d = u.compare(case, driver, res)
     except u.Borderline:
         return "borderline", None
     except Exception as e:  # noqa
@@ -82,7 +82,7 @@ def report(rep, case, d, driver):
 
 def check(rep, tier, seed, driver):
     rng = random.Random(seed)
-    n = 260 if tier == "quick" else 5000
+    n = 600 if tier == "quick" else 2000
     rep.rule = ("random ProximityArchive configurations (k 1..8, thresholds incl. 0, initial_capacity 1..128, float32/float64, with/without "
                 "local competition, cKDTree leafsize 1..16) x random histories of add (lists/ndarrays, objective=None), add_single, clear, "
                 "lower/upper_bounds reads (often around clears), compute_novelty, index_of, retrieve; stream exact1d: 1-D points on a 2^-3 "
@@ -105,22 +105,26 @@ def check(rep, tier, seed, driver):
             cases.append(u.gen_case(rng, tier))
     for case in cases:
         case = {"cfg": case["cfg"], "ops": case["ops"]}
-        verdict, d = run_case(case, driver)
+        try:
+            res = u.run_impl(case)
+        except Exception as e:  # noqa
+            res = None
+        verdict, d = run_case(case, driver, res)
         rep.count("stream_" + case["cfg"]["stream"])
         rep.count("verdict_" + verdict)
         nontriv = False
         if verdict == "ok":
-            f = u.features(case)
+            f = u.features(case, res)
             lc = case["cfg"]["lc"]
             rep.count("lc" if lc else "no_lc")
-            for key in ("mixed_batch", "replaced", "multi_competitors", "clear_nonempty", "dup_admitted", "eq_threshold", "lc_tie"):
+            for key in ("mixed_batch", "replaced", "multi_competitors", "tied_winners", "clear_nonempty", "dup_admitted", "eq_threshold", "lc_tie"):
                 if f[key]:
                     rep.count("feat_" + key)
             rep.count("doublings_ge3" if f["doublings"] >= 3 else "doublings_lt3")
             nontriv = f["mixed_batch"] and f["doublings"] >= 2 and (
                 (f["replaced"] and f["multi_competitors"]) if lc else (f["clear_nonempty"] or f["dup_admitted"]))
             # the oracle is also run on agreeing cases (cheap): the property must hold on the implementation's outputs
-            orc = u.oracle(case)
+            orc = u.oracle(case, res)
             if orc is not None:
                 verdict, d = "bad", {"what": "oracle only", "oracle": orc[0]}
         for o in case["ops"]:
